@@ -15,6 +15,7 @@ import Lemmas.VrfRtcIdx
 import Lemmas.VrfRtcVrf
 import Lemmas.VrfRtcView
 import Lemmas.VrfRtcMgr
+import Lemmas.VrfRtcSup
 namespace C17
 open VrfRtc
 
@@ -196,6 +197,44 @@ theorem rtc_invariant (x : Sys) (h : SysReach x) : ViewOK x.t x.s x.v := by
       exact ⟨Reach.step _ p wd hr hfr, rtc_table_step _ _ _ p wd hwi.1 hfr hv⟩
     | mem m wd => exact ⟨hr, rtc_member_step _ _ _ m wd hwi.1 hwi.2 hv⟩
 
+/-- The deferred / initial table transfer gives a peer that holds nothing exactly what its
+    memberships, as they are at that moment, entitle it to. -/
+theorem rtc_catchup (t : Tbl) (s : Rtm) (h : TblWF t) :
+    ViewOK t s (View.apply (fun _ => none) (catchUp t s)) :=
+  catchUp_view t s h
+
+/-- `rtc_invariant` with advertisement toward the peer suppressed for a while (a new session on which
+    the local speaker is the restarting one — any reason for which needToAdvertise is false from the
+    start of a session): membership and route changes that arrive meanwhile are recorded; the peer
+    holds nothing until the deferral ends and exactly what it is entitled to afterwards. -/
+theorem rtc_invariant_suppressed (x : SysS) (h : SysSReach x) :
+    if x.sup then (∀ n, x.v n = none) else ViewOK x.t x.s x.v :=
+  (sysS_inv x h).2
+
+/-
+  RT-membership prefixes over their whole length domain, full strength (RFC 4684 §4), FALSE of the
+  code and of the model that mirrors it for the lengths 33..95:
+
+    theorem rtc_filter_prefix (ms : List MemL) (ecs : List EC) :
+        interested (ms.map MemL.toMem) ecs = wantsRFC ms ecs
+
+  gobgp keeps the leading bits zero-padded as an exact key (known finding
+  rtc-partial-length-membership-not-prefix-matched, replayed by c17CorpusSrv `gr`).
+-/
+
+/-- the witness: 65000:(rt 65000:*)/64 — every two-octet-AS target of AS 65000 — against rt 65000:1 -/
+theorem rtc_filter_prefix_counterexample :
+    wantsRFC [⟨64, 65000, 842122827661313⟩] [842122827661313] = true ∧
+    interested ([⟨64, 65000, 842122827661313⟩].map MemL.toMem) [842122827661313] = false := by
+  decide
+
+/-- `rtc_filter_prefix_partial`: for the default (0), the origin-AS-only prefix (32, and anything
+    shorter) and full route targets (96) the exact-key test of the code is RFC 4684's prefix test. -/
+theorem rtc_filter_prefix_partial (ms : List MemL) (ecs : List EC)
+    (hlen : ∀ m, m ∈ ms → (m.len ≤ 32 ∨ (m.len = 96 ∧ m.rt ≠ 0))) :
+    interested (ms.map MemL.toMem) ecs = wantsRFC ms ecs :=
+  interested_iff_rfc ms ecs hlen
+
 /-- the same per step, for any well-formed table -/
 theorem rtc_invariant_member_step (t : Tbl) (s : Rtm) (v : View) (m : Mem) (wd : Bool)
     (h : TblWF t) (hi : IdxInv t) (hv : ViewOK t s v) :
@@ -303,6 +342,16 @@ def mops : List MOp := [.add red, .recv X ⟨3, 200⟩ false, .add blue, .recv Y
 theorem mops_ok : RecvOK mops := by simp [mops, RecvOK]
 example : ((Mgr.run mops).rtc X).map (·.src) = [3, 0] ∧ ((Mgr.run mops).rtc Y).map (·.src) = [0, 4] := by decide
 example : ((Mgr.run mops).delVrf 1).2 = [Xn] ∧ ((Mgr.run (mops ++ [.del 1])).delVrf 2).2 = [X, Y] := by decide
+/-- a session with deferred updates: the membership announced meanwhile is honoured by the transfer -/
+def sysS1 : SysS := (((SysS.init.step (.upd pa false)).step .restart).step (.mem ⟨X, 65000, 0⟩ false))
+theorem sysS1_reach : SysSReach (sysS1.step .resume) := by
+  refine SysSReach.step _ _ (SysSReach.step _ _ (SysSReach.step _ _ (SysSReach.step _ _ SysSReach.init ?_) ?_) ?_) ?_
+  · intro p hp
+    cases hp
+    exact ⟨fun n q hq => by simp [SysS.init, Tbl.empty] at hq, fun n q hq => by simp [SysS.init, Tbl.empty] at hq⟩
+  all_goals intro p hp; cases hp
+example : sysS1.sup = true ∧ sysS1.v (5, 0) = none ∧ (sysS1.step .resume).v (5, 0) = some 1 := by decide
+example : wantsRFC [⟨32, 65000, 0⟩] [Y] = true ∧ interested ([⟨32, 65000, 0⟩].map MemL.toMem) [Y] = true := by decide
 end Examples
 
 end C17
